@@ -126,6 +126,17 @@ def required_labels(tier):
             'mode-hanzi', 'M1', 'M2', 'M3', 'M4', 'v1-9', 'v10-26', 'eci-header', 'refused']
 
 
+def _fuzz(tier):
+    """Coverage-guided phase (atheris), thorough tier (or VERIF_FUZZ_RUNS=<n> in any tier)."""
+    import os
+    runs = int(os.environ.get('VERIF_FUZZ_RUNS', '0' if tier == 'quick' else '320000'))
+    if not runs:
+        return []
+    from .. import fuzz
+    return [fuzz.fuzz_phase(__name__, runs)]
+
+
 def phases(tier, seed):
     n = 25600 if tier == 'quick' else 600000
-    return [Search('cases', gens.make_cases(big=0.05 if tier == 'quick' else 0.15), n)]
+    ph = [Search('cases', gens.make_cases(big=0.05 if tier == 'quick' else 0.15), n)]
+    return ph + _fuzz(tier)
